@@ -112,7 +112,7 @@ impl Assignment {
                     "attempting to look up a variable that does not exist in any parent scope",
                 )?;
 
-            if !is_captured {
+            if !is_captured && !ident.is_instance_callback_variable().unwrap_or(false) {
                 // `modify` compiles to a write through the function's captured variables
                 bail!("`{name}` belongs to this function and is not captured from an enclosing one: assign to it without `modify`");
             }
@@ -517,12 +517,12 @@ impl Parser {
                     .clone();
                 if x.idents[0].is_instance_callback_variable().unwrap_or(false) {
                     // later reads in this function see the declared type as well
-                    user_data.add_dependency(
-                        &x.idents[0].clone_with_type(Cow::Owned(declared_ty.clone())),
-                    );
                     x.idents[0].set_type_no_link(Cow::Owned(TypeLayout::CallbackVariable(
                         Box::new(declared_ty),
                     )));
+                    // ... and stays marked as captured, so that a second `modify` in a nested
+                    // block of this function still finds a captured variable
+                    user_data.add_dependency(&x.idents[0]);
                 }
             }
         }
